@@ -280,11 +280,31 @@ func vb2i(b bool) int {
 @*/
 
 /*@ func (self *Analyzer) importItem
-    serves C15
+    serves C15, C05
     assume-safety
     assumepre TypeCheck, expression
     ensures @imports-stay-private ghost(pubImports) == old(ghost(pubImports))
+    ensures @scratch-counters ghost(reported) == ghost(reported) && ghost(dynamic) == ghost(dynamic)
+    assert @only-an-unregistered-module-is-analyzed before self.analyzeModule( :: !haskey(self.modules, node.FromModule.Ident())
     loopinvariant ghost(pubImports) == entry(ghost(pubImports))
+@*/
+
+// Termination of the analysis over import cycles (C05): `importItem` starts
+// the analysis of a module only if no module of that name is registered
+// (above), and `analyzeModule` registers the name before it follows the first
+// import of the module. So every module name is analyzed at most once, however
+// the modules the host returns import each other.
+
+/*@ func (self *Analyzer) analyzeModule
+    serves C05, C15
+    assume-safety
+    assumepre letStatement, functionDefinition
+    ensures @scratch-counters ghost(reported) == ghost(reported) && ghost(dynamic) == ghost(dynamic)
+    ensures @imports-stay-private ghost(pubImports) == old(ghost(pubImports))
+    assume @host-additions-are-not-pub-imports before self.currentModule.addVar(name, val, false) :: !(val.Origin == ImportedVariableOriginKind && val.IsPub)
+    loopinvariant ghost(pubImports) == entry(ghost(pubImports))
+    assert @registered-before-its-imports-are-followed before for _, item := range module.Imports { :: haskey(self.modules, moduleName)
+    loop "range self.scopeAdditions" invariant haskey(self.modules, moduleName)
 @*/
 
 // ---------------------------------------------------------------------------
